@@ -9,7 +9,7 @@ use crate::util::{guard, par_map, Kv};
 
 pub fn meta(ctx: &Ctx) -> Meta {
     Meta {
-        rule: format!("networks of depth 2..{} over count-preserving layers {{dense 4->4 (linear, ReLU), conv 1x1 / 3x3 p1, deconv 3x3 p1 on 1x2x2, feedback[dense 4]x2}} from a flat and a spatial input (flat<->spatial neighbours in both directions) x EVERY index pair a <= b x all 5 accumulations, exact small-integer data: predict vs the reference interpreter; connections spanning 5..7 layers of an 8-layer network; EVERY ordered pair of connect calls on the depth-3/4 networks: pairwise distinct sources and targets must be accepted, a second connection onto a used target (or from a used source) must be rejected or both must stay visible in predict; THREE connect calls with pairwise distinct sources and targets on a 5-layer network (quick: every ascending triple; thorough: every ordered triple) under add and mean: accepted, all visible; additive accumulation: Network::backward vs the dual-number derivative of the reference function for every single connection, every accepted pair and every triple. Non-trivial = reference output has >= 2 distinct non-zero entries", if ctx.tier.thorough() { 4 } else { 3 }),
+        rule: format!("networks of depth 2..{} over count-preserving layers {{dense 4->4 (linear, ReLU), conv 1x1 / 3x3 p1, deconv 3x3 p1 on 1x2x2, feedback[dense 4]x2}} from a flat and a spatial input (flat<->spatial neighbours in both directions) x EVERY index pair a <= b x all 5 accumulations, exact small-integer data: predict vs the reference interpreter; connections spanning 5..7 layers of an 8-layer network; EVERY ordered pair of connect calls on the depth-3/4 networks: pairwise distinct sources and targets must be accepted, a second connection onto a used target (or from a used source) must be rejected or both must stay visible in predict; every first connection followed by a connect call with its indices the other way round (source above target): rejected, or the first connection must still act (additive accumulation, generic data: the result must not be bit-equal to that without the first connection); THREE connect calls with pairwise distinct sources and targets on a 5-layer network (quick: every ascending triple; thorough: every ordered triple) under add and mean: accepted, all visible; additive accumulation: Network::backward vs the dual-number derivative of the reference function for every single connection, every accepted pair and every triple. Non-trivial = reference output has >= 2 distinct non-zero entries", if ctx.tier.thorough() { 4 } else { 3 }),
         bound: "depth <= 4 (5 for triples, 8 for long spans), element count 4, at most three connections".into(),
         exhaustive: true,
         assumptions: vec![
@@ -130,6 +130,48 @@ pub fn check(seed: u64, case: &Kv, rep: &mut Report) {
             let ok = forward_case(&net, seed, case, rep);
             if ok && net.skipacc == Acc::Add {
                 backward_case(&net, seed, case, rep);
+            }
+        }
+        "revpair" => {
+            // a second connect call with its indices the other way round (source index above target index) after a
+            // first connection: rejected, or - if the library accepts it - the first connection must still act
+            let net = Net::parse(case.get("net"));
+            let (x, y) = (case.usize("from"), case.usize("to"));
+            rep.states += 1;
+            rep.evaluations += 1;
+            rep.transitions += 4;
+            let mut plain = net.clone();
+            plain.connects.clear();
+            let shapes = ref_shapes(&net).unwrap();
+            let key = net.name();
+            let params = params_for(&net, &shapes, Valuation::Generic, seed, &key);
+            let xin = input_values(Valuation::Generic, net.input.count(), seed, &key);
+            let run = |spec: &Net, second: bool| -> Result<Vec<f32>, String> {
+                let mut lib = build_with(spec, &shapes, &params)?;
+                if second {
+                    guard(|| lib.connect(x, y))?;
+                    guard(|| lib.predict(&crate::libnet::tensor(spec.input, &xin))).and_then(|t| crate::libnet::flat_dims(&t)).map(|d| d.1).map_err(|e| format!("after-accept: {}", e))
+                } else {
+                    guard(|| lib.predict(&crate::libnet::tensor(spec.input, &xin))).and_then(|t| crate::libnet::flat_dims(&t)).map(|d| d.1)
+                }
+            };
+            match run(&net, true) {
+                Err(e) if !e.starts_with("after-accept") => rep.count("reversed_call_rejected", 1),
+                Err(e) => rep.violate("C16 forward fails after an accepted connect call", format!("{}: connect({},{}) accepted, then: {}", net.name(), x, y, crate::util::first_line(&e)), case),
+                Ok(both) => {
+                    rep.count("reversed_call_accepted", 1);
+                    if let (Ok(only_second), Ok(only_first), Ok(none)) = (run(&plain, true), run(&net, false), run(&plain, false)) {
+                        let first_matters = !crate::util::bits_eq(&only_first, &none);
+                        if first_matters && crate::util::bits_eq(&both, &only_second) {
+                            rep.nontrivial += 1;
+                            rep.violate(
+                                "C16 a later connect call silently discards an earlier connection",
+                                format!("{}: connect({},{}) was accepted and the network then computes exactly what it computes without the first connection", net.name(), x, y),
+                                case,
+                            );
+                        }
+                    }
+                }
             }
         }
         "triple" => {
@@ -280,6 +322,25 @@ pub fn cases(ctx: &Ctx) -> Vec<Kv> {
                         m.connects = vec![c1, c2, c3];
                         m.skipacc = acc;
                         out.push(Kv::new().put("kind", "triple").put("net", m.name()));
+                    }
+                }
+            }
+        }
+    }
+    // every first connection x every second call with its indices the other way round
+    for net in &nets {
+        let n = net.layers.len();
+        if n < 3 {
+            continue;
+        }
+        for b in 0..n {
+            for a in 0..=b {
+                for x in 1..=n {
+                    for y in 0..x.min(n) {
+                        let mut m = net.clone();
+                        m.connects = vec![(a, b)];
+                        m.skipacc = Acc::Add;
+                        out.push(Kv::new().put("kind", "revpair").put("net", m.name()).put("from", x).put("to", y));
                     }
                 }
             }
